@@ -63,7 +63,7 @@ The repo has Go modules at {wt} (compiler, `go test ./...` there) and {wt}/lib/g
 PROCEDURE for each change x in (a, b):
   - make the change in the worktree; confirm build + full existing tests pass (both modules);
   - add the demonstration test; confirm it FAILS with the change;
-  - `git stash`/revert just the source change (keep the demo) and confirm the demo PASSES on the unchanged source; restore;
+  - save the source change with `git diff -- <changed non-test files> > /tmp/<yours>.diff`, revert it with `git apply -R` (NEVER use `git stash`: the stash is shared by all worktrees of the repository and other people work in sibling worktrees), keep the demo and confirm the demo PASSES on the unchanged source; re-apply with `git apply`;
   - write {out}/x/patch.diff  (output of `git diff` for the NON-test source change only, relative to the worktree root, appliable with `git apply` at the repository root),
     {out}/x/demo/<the demonstration test file(s)> (with a note of where in the tree each belongs),
     {out}/x/README.md : what was changed, why it breaks the property, exactly what is needed for it to manifest (interleaving / input / sequence), the commands you ran and their results (suite passes with change; demo fails with change; demo passes without).
